@@ -312,6 +312,130 @@ def check_config(acc, h, cfg, layer):
             acc.violation('C03:late-trace', 'a route added after the meta page had been served ran %r, expected %r' % (got, want), case)
 
 
+def stock_pairs():
+    from clastic.middleware import GzipMiddleware, HTTPCacheMiddleware, SimpleContextProcessor, ContextProcessor
+    from clastic.middleware.url import GetParamMiddleware, ScriptRootMiddleware
+    from clastic.middleware.form import PostDataMiddleware
+    from clastic.middleware.cookie import SignedCookieMiddleware
+    from clastic.middleware.stats import StatsMiddleware
+    from clastic.middleware.profile import SimpleProfileMiddleware
+    return [
+        ('getparam', lambda k: GetParamMiddleware(['q%d' % k])),
+        ('getparam-same', lambda k: GetParamMiddleware(['q'])),
+        ('postdata', lambda k: PostDataMiddleware(['f%d' % k])),
+        ('scriptroot', lambda k: ScriptRootMiddleware('root%d' % k)),
+        ('cookie', lambda k: SignedCookieMiddleware(secret_key=b'k%d' % k, arg_name='ck%d' % k, cookie_name='c%d' % k)),
+        ('gzip', lambda k: GzipMiddleware(compress_level=k + 1)),
+        ('httpcache', lambda k: HTTPCacheMiddleware(max_age=k)),
+        ('stats', lambda k: StatsMiddleware()),
+        ('profile', lambda k: SimpleProfileMiddleware(get_param_name='_p%d' % k)),
+        ('simplectx', lambda k: SimpleContextProcessor('r%d' % k)),
+        ('ctxproc', lambda k: ContextProcessor(defaults={'d%d' % k: k})),
+    ]
+
+
+STOCK_SITES = ('app+route', 'outer+inner', 'outer+inner+route', 'outer+route')
+REROUTE_ITEMS = 2 * 2 * 2
+
+
+def check_stock(acc):
+    """The merge rule with the stock middleware classes (each a unique type), configured differently at each level:
+    exactly one instance of the type ends up on the route, the outermost one.  And the stock hand-over endpoint
+    (RerouteWSGI) is an endpoint like any other: the route's middlewares run around it."""
+    from clastic import Application, Route
+    from clastic.application import RerouteWSGI
+    from clastic.middleware import Middleware
+    from clastic.errors import Forbidden
+    from werkzeug.wrappers import Response
+    from mc import wsgi
+    for label, mk in stock_pairs():
+        for site in STOCK_SITES:
+            acc.evaluated += 1
+            acc.validated += 1
+            acc.transitions += 1
+            acc.add('nontrivial')
+            case = {'layer': 'stock', 'label': label, 'site': site}
+            a, b, c = mk(0), mk(1), mk(2)
+            ep = lambda: Response('ok')
+            try:
+                if site == 'app+route':
+                    app = Application([Route('/r', ep, middlewares=[b])], middlewares=[a])
+                elif site == 'outer+route':
+                    app = Application([('/', Application([Route('/r', ep, middlewares=[b])]))], middlewares=[a])
+                elif site == 'outer+inner':
+                    app = Application([('/', Application([Route('/r', ep)], middlewares=[b]))], middlewares=[a])
+                else:
+                    app = Application([('/', Application([Route('/r', ep, middlewares=[c])], middlewares=[b]))], middlewares=[a])
+            except Exception as e:
+                acc.violation('C03:stock-rejected:%s' % label, '%s at %s: construction raised %r' % (label, site, e), case)
+                continue
+            rt = [r for r in app.routes if r.pattern == '/r'][0]
+            same = [m for m in rt.middlewares if type(m) is type(a)]
+            acc.outcome('stock:%s' % label)
+            if len(same) != 1 or same[0] is not a:
+                acc.violation('C03:stock-unique-type:%s' % label, '%s at %s: the route carries %d middleware(s) of the unique type %s (%s), '
+                              'expected the outermost one only' % (label, site, len(same), type(a).__name__,
+                                                                   ['abc'[[a, b, c].index(m)] if any(m is x for x in (a, b, c)) else '?' for m in same]), case)
+                continue
+            res = wsgi.call(app, '/r', 'GET')
+            if res.raised is not None or res.code != 200:
+                acc.violation('C03:stock-request:%s' % label, '%s at %s: request answered %s %r' % (label, site, res.status, res.raised), case)
+    log = []
+
+    class Tracer(Middleware):
+        def request(self, next):
+            log.append('tracer-in')
+            try:
+                return next()
+            finally:
+                log.append('tracer-out')
+
+    class Gate(Middleware):
+        deny = False
+
+        def request(self, next):
+            log.append('gate')
+            if self.deny:
+                return Forbidden('closed')
+            return next()
+
+    def target(environ, start_response):
+        log.append('target')
+        start_response('200 OK', [('Content-Type', 'text/plain')])
+        return [b'target']
+    for spelling in ('instance', 'raising-function'):
+        for level in ('app', 'route'):
+            for deny in (False, True):
+                acc.evaluated += 1
+                acc.validated += 1
+                acc.transitions += 1
+                acc.add('nontrivial')
+                case = {'layer': 'reroute', 'spelling': spelling, 'level': level, 'deny': deny}
+                gate = Gate()
+                gate.deny = deny
+                mws = [Tracer(), gate]
+                if spelling == 'instance':
+                    ep = RerouteWSGI(target)
+                else:
+                    def ep():
+                        raise RerouteWSGI(target)
+                try:
+                    app = Application([Route('/go', ep, middlewares=mws if level == 'route' else [])],
+                                      middlewares=mws if level == 'app' else [])
+                except Exception as e:
+                    acc.violation('C03:reroute-rejected', 'hand-over endpoint (%s) behind middlewares rejected: %r' % (spelling, e), case)
+                    continue
+                del log[:]
+                res = wsgi.call(app, '/go', 'GET')
+                want = ['tracer-in', 'gate', 'tracer-out'] + ([] if deny else ['target'])
+                acc.outcome('reroute:%s:%s' % (spelling, deny))
+                if res.raised is not None:
+                    acc.violation('C03:reroute-raised', 'request raised %r' % (res.raised,), case)
+                elif log != want or res.code != (403 if deny else 200):
+                    acc.violation('C03:reroute-trace:%s' % spelling, 'hand-over endpoint (%s), middlewares at %s level, gate %s: ran %r '
+                                  '-> %s, expected %r' % (spelling, level, 'closed' if deny else 'open', log, res.status, want), case)
+
+
 def nshards(tier):
     return 32 if tier == 'quick' else 64
 
@@ -321,6 +445,8 @@ def shard(tier, i, n, seed):
     acc = common.Acc()
     h = chain.Harness()
     k = 0
+    if i == 0:
+        check_stock(acc)
     for name, gen in layers(tier):
         for cfg in gen():
             k += 1
@@ -349,6 +475,7 @@ def finish(tier, merged, results):
         if not any(':raise:' in k for k in oc) or not any(':return:409' in k for k in oc):
             raise common.InternalError('vacuous: fault scripts did not produce raise / HTTPException outcomes')
     sizes = dict((name, sum(1 for _ in gen())) for name, gen in layers(tier))
+    sizes['stock'] = len(stock_pairs()) * len(STOCK_SITES) + REROUTE_ITEMS
     return {'space_size': sum(sizes.values()), 'bounds': {'layers': sizes, 'types': TYPES, 'mw_scripts': MW_SCRIPTS},
             'distinct_nontrivial': merged['extra'].get('nontrivial', 0)}
 
@@ -357,6 +484,10 @@ def replay(case):
     common.setup_repo()
     acc = common.Acc()
     h = chain.Harness()
+    if case.get('layer') in ('stock', 'reroute'):
+        check_stock(acc)
+        vs = [v for v in acc.violations if v['case'] == case]
+        return (False, vs[0]['desc']) if vs else (True, 'ok')
     check_config(acc, h, case['cfg'], case.get('layer', 'replay'))
     if acc.violations:
         return False, acc.violations[0]['desc']
